@@ -130,6 +130,8 @@ def time_value(t, form):
         return t + 0.5
     if form == "naive_us":
         return EPOCH + dt.timedelta(seconds=t, microseconds=700000)
+    if form == "naive":
+        return EPOCH + dt.timedelta(seconds=t)
     if form == "aware+0530":
         return (EPOCH_UTC + dt.timedelta(seconds=t)).astimezone(dt.timezone(dt.timedelta(hours=5, minutes=30)))
     raise HarnessError(f"unknown time form {form}")
@@ -201,7 +203,29 @@ def position(want, code_text, inv, t, window, skew, last, period):
 _VFY = [-1, 1]
 
 
+#: PROCESS time zones (TZ + tzset) under which the date-time forms are driven again: a date-time without a zone is
+#: documented to be taken as UTC whatever the local zone of the process is, an aware one is an absolute instant
+PROCESS_ZONES = ("EST5EDT,M3.2.0,M11.1.0", "JST-9", "IST-5:30", "NZST-12NZDT,M9.5.0,M4.1.0/3")
+
+
 def eval_match(case, obj=None, codes=None, inv=None):
+    ptz = case.get("ptz")
+    if ptz:
+        import os
+        import time as _time
+
+        old = os.environ.get("TZ")
+        os.environ["TZ"] = ptz
+        _time.tzset()
+        try:
+            found, info = eval_match({k: v for k, v in case.items() if k != "ptz"}, obj, codes, inv)
+        finally:
+            if old is None:
+                os.environ.pop("TZ", None)
+            else:
+                os.environ["TZ"] = old
+            _time.tzset()
+        return [(k + ":process_tz", f"[process TZ={ptz}] {d}") for k, d in found], info
     fam, key, alg, digits, period = (case[k] for k in ("fam", "key", "alg", "digits", "period"))
     window, skew, last, t, code = (case[k] for k in ("window", "skew", "last", "t", "code"))
     tform = case.get("tform", "int")
@@ -489,8 +513,11 @@ def work(task):
     free = unassigned_code(codes, digits)
     base = {"kind": "match", "fam": fam, "key": key, "alg": alg, "digits": digits, "period": period, "window": window, "skew": skew, "top": top}
 
-    def do(last, t, code, label, tform="int"):
+    def do(last, t, code, label, tform="int", ptz=None):
         case = dict(base, last=last, t=t, code=code, label=label, tform=tform)
+        if ptz:
+            case["ptz"] = ptz
+            tform = f"{tform}@{ptz.split(',')[0]}"
         acc.ev()
         found, (want, pos, got) = eval_match(case, obj, codes, inv)
         for k, d in found:
@@ -548,6 +575,10 @@ def work(task):
                     case, want = do(e - 1 if t % 2 else None, t, c, "code", tform)
                     if t == 29 and tform == "aware+0530":
                         acc.sample(case)
+            for ptz in PROCESS_ZONES:
+                for tform in ("naive", "naive_us", "aware+0530"):
+                    for c in (good, codes[e + 1], free):
+                        do(e - 1 if t % 2 else None, t, c, "code", tform, ptz)
     else:
         raise HarnessError(f"unknown part {part}")
     acc.axis("family", fam)
